@@ -778,5 +778,18 @@ func swallowShape(why string) string {
 		}
 		return "v"
 	})
+	// && and || commute: the operands of a flat conjunction / disjunction are put in a canonical order, so that
+	// re-ordering independent tests does not change the identity of the site
+	for _, op := range []string{" && ", " || "} {
+		other := " || "
+		if op == " || " {
+			other = " && "
+		}
+		if strings.Contains(cond, op) && !strings.Contains(cond, other) && !strings.ContainsAny(cond, "()") {
+			parts := strings.Split(cond, op)
+			sort.Strings(parts)
+			cond = strings.Join(parts, op)
+		}
+	}
 	return why[:i] + "(" + cond + ")"
 }
